@@ -171,7 +171,7 @@ func (s *simSource) Fetch(ctx context.Context, pid peer.ID) (*model.ProviderInfo
 
 // httpFaultNames are the ways a source endpoint fails in HTTP mode; the
 // simulated network applies them to the response of the real handler.
-var httpFaultNames = []string{"status-500", "status-503", "reset-before", "reset-mid", "truncated-body", "stall-until-client-timeout", "empty-body", "status-404"}
+var httpFaultNames = []string{"status-500", "status-503", "reset-before", "reset-mid", "truncated-body", "stall-until-client-timeout", "empty-body", "status-404", "null-element"}
 
 const pcHTTPTimeout = 20 * time.Second
 
@@ -197,7 +197,20 @@ func (s *simSource) httpFetchAll(ctx context.Context, call *srcCall, dir srcDire
 		}
 		return nil, err
 	}
-	if dir.fail && dir.kind != 4 { // a cut that only removes the trailing newline leaves a complete document
+	full := out
+	if dir.fail && dir.kind == 8 {
+		// a null among the records: the source hands it on as a nil element,
+		// which the cache has to skip; the other records count
+		out = nil
+		for _, pi := range full {
+			if pi != nil {
+				out = append(out, pi)
+			}
+		}
+		if len(out) == len(full) {
+			s.d.r.Violate(s.d.mode+".httpsource", "the null element of the response is not in what FetchAll returned")
+		}
+	} else if dir.fail && dir.kind != 4 { // a cut that only removes the trailing newline leaves a complete document
 		s.d.r.Violate(s.d.mode+".httpsource", "FetchAll through the HTTP source succeeded although the endpoint failed (%s)", httpFaultNames[dir.kind])
 	}
 	if len(out) != len(s.served) {
@@ -212,7 +225,7 @@ func (s *simSource) httpFetchAll(ctx context.Context, call *srcCall, dir srcDire
 	}
 	call.recs = s.served
 	s.d.r.Logf(s.name, "FetchAll over HTTP -> [%s]", strings.Join(desc, " "))
-	return out, nil
+	return full, nil
 }
 
 func (s *simSource) httpFetch(ctx context.Context, call *srcCall, dir srcDirective, pid peer.ID, name string) (*model.ProviderInfo, error) {
@@ -313,6 +326,18 @@ func (d *pcDriver) httpPolicy(q *simkit.ReqRecord) simkit.FaultSpec {
 			return simkit.FaultSpec{Kind: simkit.FStall}
 		case 6:
 			return simkit.FaultSpec{Kind: simkit.FEmpty}
+		case 8:
+			if strings.HasSuffix(q.Path, "/providers") {
+				// a list with a null element (a hostile or buggy source)
+				return simkit.FaultSpec{Kind: simkit.FRewrite, Rewrite: func(b []byte) []byte {
+					t := strings.TrimSpace(string(b))
+					if t == "[]" {
+						return []byte("[null]")
+					}
+					return []byte("[null," + strings.TrimPrefix(t, "["))
+				}}
+			}
+			return simkit.FaultSpec{Kind: simkit.FStatus, Code: 500}
 		default:
 			return simkit.FaultSpec{Kind: simkit.FStatus, Code: 404}
 		}
